@@ -44,23 +44,26 @@ Definition kstep (tmo : Z) (s : kst) (e : kev) : kst :=
   | Resp u => mkk (k_ls s) u None (k_ps s) (k_lt s) u (k_bad s)
   end.
 
-(* environment hypotheses of the keep-alive clause, checked along the run *)
-Definition kenv_ok (tmo : Z) (s : kst) (e : kev) : bool :=
-  (k_cur s <=? ktime e) && (ktime e <? 4294967296) &&       (* time does not run backwards; uptime seconds fit 32 bits *)
-  (ktime e <=? k_lt s + 2) &&                                (* a timer1 tick at least every other second (1 s period, lateness < 1 s) *)
-  (* healthy link: a queued ping is accepted by espconn_sent within the next iterate (100 ms), i.e. not later than the next second *)
+(* Conditions on one abstract event.  kder_ok: what follows from the automaton itself (time does not run backwards, uptime
+   seconds fit 32 bits, a timer1 tick at least every other second: 1 s period, lateness < 1 s) -- derived in C05/Sim.v.
+   kext_ok: what is truly external (server, link, local traffic):
+     H_link    a queued ping is accepted by espconn_sent within the next iterate (100 ms), i.e. not later than the next second and
+               before the next second's timer1 tick,
+     H_prompt  the server answers every ping promptly: no tick later than the second after the one in which the ping was queued,
+     H_slot    a free out-queue slot at the ticks where an idle time has reached tmo - 2 (complement of the known finding). *)
+Definition kder_ok (s : kst) (e : kev) : bool :=
+  (k_cur s <=? ktime e) && (ktime e <? 4294967296) && (ktime e <=? k_lt s + 2).
+Definition kext_ok (tmo : Z) (s : kst) (e : kev) : bool :=
   (match k_ps s with Some u0 => ktime e <=? u0 + 1 | None => true end) &&
   match e with
   | Tick u slot =>
-      (* ... and before the next second's timer1 tick *)
       (match k_ps s with Some u0 => u <=? u0 | None => true end) &&
-      (* the server answers every ping promptly: no tick later than the second after the one in which the ping was queued *)
       (match k_pr s with Some u0 => u <=? u0 + 1 | None => true end) &&
-      (* H_slot: a free out-queue slot at the ticks where an idle time has reached tmo - 2 *)
       (if (tmo - 2 <=? u - k_ls s) || (tmo - 2 <=? u - k_lr s) then slot else true)
   | Sent u => true
   | Resp u => true
   end.
+Definition kenv_ok (tmo : Z) (s : kst) (e : kev) : bool := kder_ok s e && kext_ok tmo s e.
 
 (* start: the register result has just been processed at second u0 (last_response = u0); timer1 ticked at most 1 s ago *)
 Definition kinit (u0 ls0 : Z) : kst := mkk ls0 u0 None None u0 u0 false.
